@@ -802,7 +802,7 @@ impl Prop for C20 {
         "C20"
     }
     fn rule(&self) -> String {
-        "in-process: the C02 generator (hunks needing fuzz 0..2 through perturbed context, asymmetric and context-free hunks) with a pair of limits F < F' <= F+3; CLI: the same file patch as a one-patch series pushed with --fuzz F and --fuzz F'. Oracle (metamorphic): if the run with F applies every hunk, the run with F' applies every hunk and yields the identical file (CLI: identical tree, .pc and exit status 0). non-trivial = the F run succeeded and some hunk could use more fuzz than it applied with and than F; distinct = distinct case".into()
+        "in-process: the C02 generator (hunks needing fuzz 0..2 through perturbed context, asymmetric and context-free hunks) plus long files (200-4200 unique lines) whose exact match lies hundreds to thousands of lines from the stated position with a decoy needing fuzz next to it, and two-hunk patches whose second hunk matches exactly only inside the region the first has passed, with a pair of limits F < F' <= F+3 (1 in 5: huge F'); CLI: the same file patch at the head of a short series - 1 in 10 followed by 101-106 further patches, more than the default number of backups - pushed with --fuzz F and --fuzz F'. Oracle (metamorphic): if the run with F applies every hunk, the run with F' applies every hunk and yields the identical file (CLI: identical tree, .pc and exit status 0). non-trivial = the F run succeeded and some hunk could use more fuzz than it applied with and than F; distinct = distinct case".into()
     }
     fn assumptions(&self) -> Vec<String> {
         vec!["only complete successes at F constrain the F' run".into()]
